@@ -230,7 +230,7 @@ type listenerInfo struct {
 }
 
 func main() {
-	mode := flag.String("mode", "inproc", "inproc|handover|proc")
+	mode := flag.String("mode", "inproc", "inproc|handover|proc|stage|stagechild|stagee2e|stagee2echild")
 	cases := flag.String("cases", "", "cases file")
 	out := flag.String("trace", "", "trace output")
 	res := flag.String("results", "", "per-case result lines")
@@ -244,6 +244,22 @@ func main() {
 	}
 	if *mode == "proc" {
 		procMain(*cases, *out, *res, *shard, *shards, *bin)
+		return
+	}
+	if *mode == "stage" { // the stage manager's life cycle, one child process per history (stage.go)
+		stageMain(*cases, *out, *res, *shard, *shards)
+		return
+	}
+	if *mode == "stagechild" {
+		stageChild(*cases, *out, *res)
+		return
+	}
+	if *mode == "stagee2e" { // graceful stop after an earlier event that did not come off, through the real stage manager (stage_e2e.go)
+		stageE2EMain(*cases, *out, *res)
+		return
+	}
+	if *mode == "stagee2echild" {
+		stageE2EChild(*cases, *out, *res)
 		return
 	}
 	if !vh.HooksCompiled() {
